@@ -2,12 +2,15 @@
 from harness import common as C
 from harness import l2
 
-FILES = ["Engine/Toposort.v", "Engine/ToposortProof.v", "Engine/Tagged.v", "Engine/Tower.v", "Engine/Run08.v", "Engine/TaggedProof.v", "Engine/TowerAlg.v", "Engine/FwdCorrect.v", "Engine/FwdStep.v", "Engine/FwdEval.v", "Engine/TowerRing.v", "Engine/MixInterp.v", "Engine/MixStep.v", "Engine/MixBackward.v", "Engine/MixEval.v", "Props/C14.v"]
-RULE = ("random nested programs in which half of the differentiated bodies do not mention their own variable and "
+FILES = ["Engine/Toposort.v", "Engine/ToposortProof.v", "Engine/Tagged.v", "Engine/Tower.v", "Engine/Run08.v", "Engine/TaggedProof.v", "Engine/TowerAlg.v", "Engine/FwdCorrect.v", "Engine/FwdStep.v", "Engine/FwdEval.v", "Engine/TowerRing.v", "Engine/MixInterp.v", "Engine/MixStep.v", "Engine/MixBackward.v", "Engine/MixEval.v", "Rules/RealPrelude.v", "Rules/PiecewiseConst.v", "Rules/NogradTie.v", "Rules/Run14.v", "Props/C14.v"]
+RULE = ("(a) random nested programs in which half of the differentiated bodies do not mention their own variable and "
         "sign() (registered non-differentiable) occurs; plus implementation-only oracle cases with container "
         "arguments and the exported piecewise-constant functions; distinct by program text; non-trivial when a "
-        "differential operator is applied to an independent or sign-dependent body")
-TRUST = ["oracle-only cases (containers, exported nograd functions) are decided on the implementation by exact comparison with zeros of the argument's structure / with NumPy"]
+        "differential operator is applied to an independent or sign-dependent body; (b) the eleven proved piecewise-constant "
+        "members at floats read as dyadic rationals (integers, half-integers, 2^-45 next to a jump, 2^70, 1e-300, comparisons "
+        "at equality), value under tracing and gradient of x*f(x) in both modes, evaluated against the integer model in Coq")
+TRUST = ["translator harness/translators/nograd.py (the literal list nograd_functions and its two registration loops)", "floats are the dyadic rationals float.as_integer_ratio() reports",
+         "oracle-only cases (containers, exported nograd functions) are decided on the implementation by exact comparison with zeros of the argument's structure / with NumPy"]
 ASSUMPTIONS = ["scalar object language for the theorem; array/container zeros are checked on the implementation only"]
 OPTS = {"maxd": 3, "sign": True, "indep": 0.5}
 
@@ -26,6 +29,22 @@ def run(res, tier, seed, broken):
         for k, v in out["dist"].items():
             res.count(k, v)
         bad = bad + out["bad"]
+        # the proved piecewise-constant members at floats = dyadic rationals: value and gradient of x * f(x) against the integer model
+        pcs = out.get("pc_cases", [])
+        if pcs:
+            z = lambda n: "(%d)" % n  # noqa: E731
+            terms = ["(%d%%nat, (%s, %s)%%Z, (%s, %s)%%Z, (%s, %s)%%Z)" % (c["code"], z(c["pcqc"][0]), z(c["pcqc"][1]), z(c["pq"][0]), z(c["pq"][1]), z(c["v"]), z(c["g"])) for c in pcs]
+            try:
+                codes = C.coq_eval("c14_pc", "From Coq Require Import ZArith List.\nImport ListNotations.\nFrom AG Require Import Run14.", "", terms, "check14pc", shard=400)
+            except RuntimeError as ex:
+                codes = []
+                broken = broken + [{"obligation": "piecewise-constant model evaluation", "log": str(ex)[-3000:]}]
+            res.add_cases(len(codes), ["pc:%s:%s:%s:%s" % (c["name"], c["mode"], c["x"], c["c"]) for c in pcs[:len(codes)]], pcs[:2])
+            for c, code in zip(pcs, codes):
+                if code == 2:
+                    bad.append({"kind": "piecewise-constant member: the gradient of x * f(x) is not f(x)", "case": c, "site": {"oracle": "pc-member", "name": c["name"], "mode": c["mode"]}})
+                elif code == 1:
+                    tie.append({"kind": "NumPy's value differs from the integer model", "case": c})
 
     def hunt():
         for k in range(6 if big else 2):
@@ -39,7 +58,7 @@ def run(res, tier, seed, broken):
 
 
 replay = __import__("harness.props.c08", fromlist=["replay"]).replay
-TECHNIQUE = "Coq theorem (non-differentiable primitives return plain values at any nesting) + model/spec/implementation correspondence on programs with independent and sign-dependent bodies + implementation oracle for containers"
+TECHNIQUE = "Coq theorems (non-differentiable primitives return plain values at any nesting; over the reals, the registered floor/ceil/trunc/sign/comparisons are locally constant away from their jumps, so blocking the flow is the derivative and x*floor(x) differentiates to floor(x)) + translator of the nograd_functions list + model/spec/implementation correspondence on programs with independent and sign-dependent bodies + implementation oracle for containers"
 DESIGN_REF = "DESIGN.md 4.14"
-LEVEL_TEXT = "Proved: notrace primitives return plain values and block derivative flow at any nesting depth. Exact zeros for independent outputs: model definition tied by correspondence; containers/arrays by implementation oracle."
-LEVEL_NOTE = "Trusted: Coq kernel; model tied by correspondence; the list of registered nograd functions is checked against NumPy on the implementation only."
+LEVEL_TEXT = "Proved: notrace primitives return plain values and block derivative flow at any nesting depth; eleven registered members (floor, ceil, trunc, fix, sign, six comparisons) are on the translated list and have derivative 0 / freeze inside any program away from their jump points; the integer model compared with NumPy computes them at every rational. Exact zeros for independent outputs: model definition tied by correspondence; containers/arrays by implementation oracle."
+LEVEL_NOTE = "Trusted: Coq kernel; stdlib Reals axioms (sig_forall_dec, sig_not_dec, functional_extensionality_dep) for the real-number theorems; model tied by correspondence and by the nograd translator; the other 38 registered nograd functions are checked against NumPy on the implementation only."
